@@ -34,6 +34,7 @@ func init() {
 			need(m, &out, "auto_pid_streams_written", 100)
 			need(m, &out, "readded_pids_written", 20)
 			need(m, &out, "sweep_lengths", 1200)
+			need(m, &out, "parsed_units_remultiplexed", 500)
 			need(m, &out, "explicit_pid_reassigned_automatically", 100)
 			return out
 		},
@@ -210,6 +211,11 @@ func checkRoundTrip(c *mon.Ctx, stage string, idx int64, hr *HistRun) {
 				} else {
 					wantAF := mon.Clone(af)
 					if fp.AdaptationField == nil {
+						if afSubset(af) == "00/0" && !af.DiscontinuityIndicator && !af.RandomAccessIndicator && !af.ElementaryStreamPriorityIndicator {
+							// nothing but (requested) stuffing, as in a parsed field handed back: there is no content to lose
+							c.Count("first_packet_af_without_content_not_sent")
+							continue
+						}
 						bad("first-packet-af-missing", fmt.Sprintf("pid %#x call %d", pid, w.k))
 						return
 					}
@@ -287,6 +293,22 @@ func runC01(c *mon.Ctx) {
 		if i < 2 {
 			c.Sample("histories", histSample(hr))
 		}
+	}
+	// remultiplexing: what a demuxer returned (parsed PES with by-product fields, the first packet's parsed adaptation field) is
+	// written by a new Muxer and must come back unaltered
+	nrm := c.Pick(300, 40000)
+	for i := int64(0); i < nrm; i++ {
+		if !c.Mine("remux", i) {
+			continue
+		}
+		r := c.Rng("remux", i)
+		ops, n := remuxScenario(r, i%2 == 1)
+		if n == 0 {
+			continue
+		}
+		hr := runHistory(ops, 1+r.IntN(30))
+		checkRoundTrip(c, "remux", i, hr)
+		c.Add("parsed_units_remultiplexed", int64(n))
 	}
 	// an explicit PID is removed and the same PID is handed out again by automatic assignment
 	nra := c.Pick(200, 30000)
